@@ -38,7 +38,8 @@ EXTENDS Integers, Sequences, TLC, Json, IOUtils, StreamShapes
 
 (* TRUE: only what C05 talks about (return value, category, error identity, timestamp, purity, reset twin, skip twin); the shift / scale /  *)
 (* variant / composite twins, the filter bounds and the f64 reference belong to C04, C10, C11 and C12 and are checked when FALSE.             *)
-CONSTANT StructureOnly
+CONSTANT StructureOnly,
+         CheckErrId       \* FALSE for the numeric properties (C04, C10, C12): WHICH error is shown is the clause of C05 (and C11)
 
 Rec == ndJsonDeserialize(IOEnv.TRACE)
 
@@ -73,7 +74,7 @@ QMin(s, i) == IF i = 1 THEN s[1].key ELSE MinI2(QMin(s, i - 1), s[i].key)
 RECURSIVE QMax(_, _)
 QMax(s, i) == IF i = 1 THEN s[1].key ELSE MaxI2(QMax(s, i - 1), s[i].key)
 
-SameOut(a, b) == a = b      \* record equality: category, error identity, time and keys
+SameOut(a, b) == IF CheckErrId THEN a = b ELSE [a EXCEPT !.e = 0] = [b EXCEPT !.e = 0]      \* record equality: category, (error identity,) time and keys
 
 Event ==
   /\ IsEvent("ev")
@@ -106,7 +107,7 @@ Event ==
      IN
      /\ r.ret = ShapeRet(kind, ev)                                                               \* what update() / set() returned
      /\ r.out.c = sh2.cat                                                                        \* category of get()
-     /\ (sh2.cat = "err" => r.out.e = sh2.e)                                                     \* the same error, not a stale one
+     /\ ((CheckErrId /\ sh2.cat = "err") => r.out.e = sh2.e)                                                     \* the same error, not a stale one
      /\ (sh2.cat = "some" => r.out.t = (IF kind = "Freeze" THEN newFz ELSE newT))                \* stamped with the newest sample's time
      /\ SameOut(r.get2, r.out)                                                                   \* get() is pure
      /\ (StructureOnly \/ \A j \in 1..Len(r.num) : r.num[j].err <= r.num[j].bound)                                   \* within rounding of the recorder's f64 reference (textbook formula, exact intervals)
